@@ -28,6 +28,10 @@ def run(ctx, res):
     lists.rule_fit(prog, res, mods)
     cl = panics.closure(prog, panics.DEC_ROOTS)
     lists.rule_error_propagation(prog, res, cl)
+    # the encoders propagate every error too: a swallowed Err (out-of-range element, full buffer) would let build_message succeed with a
+    # partly written element, and the frame would not decode to the message that was given
+    import panics as _p
+    lists.rule_error_propagation(prog, engine.Filtered(res, {"E-prop"}), _p.closure(prog, _p.ENC_ROOTS), side="encode", floor=1000 if "all_msgs" in set(prog.crate["features"]) else 1)
     dispatch.decode_table(prog, engine.Filtered(res, {"E-map"}, ("return-shape", "corrupt-arm", "typed-arm", "arm-complete", "default-arm", "empty-arm")), rule="E-map")
     bitio.rule_guard_cursor(prog, res, bitio.PARSE, 2)
     bitio.import_transport(prog, res, signed=False)
